@@ -202,6 +202,12 @@ func runC19(c *fw.Ctx) {
 											nodes = append(nodes, n("GET", "/first").WithParen().WithKids(n("200", "any")))
 										}
 										decl := []*doc.Node{n("TAG", "@g").WithAnn("Group G"), n("TAG", "@k").WithKids(n("Description").WithBody("about k"))}
+									// a declared tag that has the automatic name of the URL's first segment: the
+									// tagless interactions on that path belong to it, and it keeps its title
+									declU := !undeclared && (m1+m2+ui)%2 == 1
+									if declU {
+										decl = append(decl, n("TAG", "@u").WithAnn("U group"))
+									}
 										if !declAfter {
 											nodes = append(nodes, decl...)
 										}
@@ -241,7 +247,7 @@ func runC19(c *fw.Ctx) {
 											nodes = append(nodes, decl...)
 										}
 										text := doc.Text(nodes)
-										label := fmt.Sprintf("proto=%s paren=%v url=%d m1=%d m2=%d hoist=%d after=%v undeclared=%d", proto, paren, ui, m1, m2, hoistKind, declAfter, undeclaredAt)
+										label := fmt.Sprintf("proto=%s paren=%v url=%d m1=%d m2=%d hoist=%d after=%v declU=%v undeclared=%d", proto, paren, ui, m1, m2, hoistKind, declAfter, declU, undeclaredAt)
 										if undeclared {
 											label += " name=" + undeclName
 										}
@@ -266,7 +272,11 @@ func runC19(c *fw.Ctx) {
 											continue
 										}
 										c.Count("documents_accepted_and_compared", 1)
-										if bad := checkTags(o.JSON, exp, map[string]string{"@g": "Group G", "@k": "@k"}); bad != "" {
+										titles := map[string]string{"@g": "Group G", "@k": "@k"}
+									if declU {
+										titles["@u"] = "U group"
+									}
+									if bad := checkTags(o.JSON, exp, titles); bad != "" {
 											c.Violate("tags-wrong", "C19:tags:"+firstWordsN(bad, 2), label+": "+bad, map[string]interface{}{"text": text})
 										} else {
 											c.Sample("tags "+proto, 2, map[string]interface{}{"label": label, "text": text})
